@@ -458,6 +458,22 @@ impl PB<'_> {
             return (0..n).map(|_| self.leaf(kind)).collect();
         }
         let n = min + self.rng.usize(max - min + 1);
+        // error precedence: 1/25 of the variadic calls get well-typed constant operands followed
+        // by one operand of the wrong kind (a pair), so that the operator's argument loop meets
+        // budget, representation and type error in one call
+        if max >= 2 && self.rng.chance(1, 25) {
+            let k = 1 + self.rng.usize(max.min(4));
+            let mut v: Vec<u32> = (0..k).map(|_| self.leaf(kind)).collect();
+            let bad = self.value(Kind::List);
+            let qbad = self.q(bad);
+            let nilp = {
+                let n = self.atom(&[]);
+                let p = self.pair(n, n);
+                self.q(p)
+            };
+            v.push(if self.rng.bool() { qbad } else { nilp });
+            return v;
+        }
         (0..n).map(|_| self.expr(kind, d)).collect()
     }
 
@@ -887,8 +903,25 @@ impl PB<'_> {
             self.q(a)
         };
         let cat = self.op1(14, &[big1, big2]);
-        match self.rng.below(11) {
+        match self.rng.below(12) {
             9 | 10 => self.gc_small_heap_result(cat),
+            11 => {
+                // garbage made of atom SLOTS and pairs only: (sha256 (substr BIG i j) x 64..140);
+                // the digest is the only heap allocation since the checkpoint
+                let n = 64 + self.rng.usize(77);
+                let mut args = Vec::with_capacity(n);
+                for _ in 0..n {
+                    let lo = self.rng.usize(500);
+                    let hi = lo + self.rng.usize(3);
+                    let i = self.atom(&int_bytes(lo as i128));
+                    let qi = self.q(i);
+                    let j = self.atom(&int_bytes(hi as i128));
+                    let qj = self.q(j);
+                    args.push(self.op1(12, &[big1, qi, qj]));
+                }
+                let code = *self.rng.pick(&[11u8, 11, 11, 14, 13]);
+                self.op1(code, &args)
+            }
             0 => self.op1(13, &[cat]),             // strlen: small inline result
             1 => self.op1(11, &[cat]),             // sha256: 32-byte new atom (clone path)
             2 => {
